@@ -229,24 +229,19 @@ class Emitter:
                     continue
                 fs = []
                 for f in d["fields"]:
-                    if f["default"] is not None and f["default"][1] == "None" and not G.nullable_spec(f["type"]) \
-                            and (d.get("cfg") or {}).get("omit_none"):
-                        # is_field_nullable also counts "default is None": Literal[.., None] = None is dropped by
-                        # omit_none although the type alone is not nullable; the model decides by the type
-                        raise OutOfModel("non-nullable type with default None under omit_none")
                     key = f["alias"] if f["alias"] is not None else f["name"]
-                    fs.append(f"(mkF {coq_str(f['name'])} {coq_str(key)} {self.ty(f['type'])} {cbool(f['default'] is not None)} {cbool(f['init'])} {ov[f.get('nt_override')]})")
+                    fs.append(f"(mkF {coq_str(f['name'])} {coq_str(key)} {self.ty(f['type'])} {cbool(f['default'] is not None)} {cbool(f['init'])} {ov[f.get('nt_override')]} {cbool(f['default'] is not None and f['default'][1] == 'None')})")
                 cfg = d.get("cfg") or {}
                 classes.append(f"(mkC {coq_str(d['name'])} {coq_str(d['clsname'])} {cl(fs)} {cbool(cfg.get('nt_as_dict'))} {cbool(cfg.get('omit_none'))})")
             elif d["kind"] == "nt":
-                fs = [f"(mkF {coq_str(f['name'])} {coq_str(f['name'])} {self.ty(f['type'])} {cbool(f['default'] is not None)} true None)"
+                fs = [f"(mkF {coq_str(f['name'])} {coq_str(f['name'])} {self.ty(f['type'])} {cbool(f['default'] is not None)} true None false)"
                       for f in d["fields"]]
                 nts.append(f"(mkC {coq_str(d['name'])} {coq_str(d['clsname'])} {cl(fs)} false false)")
             elif d["kind"] == "td":
                 fs = []
                 for f in d["fields"]:
                     required = (d["total"] and f["marker"] != "NotRequired") or f["marker"] == "Required"
-                    fs.append(f"(mkF {coq_str(f['name'])} {coq_str(f['name'])} {self.ty(f['type'])} {cbool(not required)} true None)")
+                    fs.append(f"(mkF {coq_str(f['name'])} {coq_str(f['name'])} {self.ty(f['type'])} {cbool(not required)} true None false)")
                 typeds.append(f"(mkC {coq_str(d['name'])} {coq_str(d['clsname'])} {cl(fs)} false false)")
             elif d["kind"] == "enum":
                 vals = [json_term(m.value) for m in self.ns[d["name"]]]
